@@ -11,7 +11,7 @@ CONSTANTS MaxLen, NameClasses
 
 Names == UNION {[1..m -> NameClasses] : m \in 1..MaxLen}
 DirsU == {"", "sub", "sub dir", "süb/deep"}
-Bases == {"plain", "with space", "trailing-slash", "ünï"}
+Bases == {"plain", "with space", "trailing-slash", "ünï", "symlink"}
 
 VARIABLES name, dir, base, done
 vars == <<name, dir, base, done>>
